@@ -8,7 +8,7 @@ import ast
 from sa.cfg import CFG
 from sa.classes import written_keys, read_keys
 from sa.report import AnalysisError
-from sa.srcmodel import unparse, walk_no_nested, calls_in, owner_class, dotted
+from sa.srcmodel import is_real_copy, unparse, walk_no_nested, calls_in, owner_class, dotted
 
 MOD = 'pharmpy.model.statements'
 REPLACERS = {'set_lag_time', 'set_bioavailability', 'set_input', 'set_dose', 'add_dose', 'remove_dose', 'move_dose'}
@@ -306,8 +306,7 @@ def run(chk, repo, tier):
     for n in gstore:
         v = n.value
         frozen = isinstance(v, ast.Call) and dotted(v.func) in ('nx.freeze', 'networkx.freeze')
-        copied = any(isinstance(x, ast.Call) and isinstance(x.func, ast.Attribute) and x.func.attr in ('copy',)
-                     for x in ast.walk(v)) or any(isinstance(x, ast.Call) and dotted(x.func) in ('nx.DiGraph',)
+        copied = any(is_real_copy(x) for x in ast.walk(v)) or any(isinstance(x, ast.Call) and dotted(x.func) in ('nx.DiGraph',)
                                                   for x in ast.walk(v))
         chk.instance(O3, f'CompartmentalSystem.__init__: self._g = {unparse(v)} (frozen={frozen}, copy={copied})')
         if not (frozen and copied):
@@ -318,8 +317,7 @@ def run(chk, repo, tier):
     binit = cbc.methods['__init__']
     for n in walk_no_nested(binit.node):
         if isinstance(n, ast.Assign) and unparse(n.targets[0]) == 'self._g' and 'cs' in names(n.value):
-            copied = any(isinstance(x, ast.Call) and isinstance(x.func, ast.Attribute) and x.func.attr == 'copy'
-                         for x in ast.walk(n.value)) or any(isinstance(x, ast.Call) and dotted(x.func) == 'nx.DiGraph'
+            copied = any(is_real_copy(x) for x in ast.walk(n.value)) or any(isinstance(x, ast.Call) and dotted(x.func) == 'nx.DiGraph'
                                                             for x in ast.walk(n.value))
             chk.instance(O3, f'Builder.__init__: self._g = {unparse(n.value)} (copy={copied})')
             if not copied:
